@@ -15,13 +15,18 @@ TB_RC = [
 PROPS = {}
 
 
-def run_part(part, seed=0, tier='quick', threads=16, prop=None, stop_on_failure=False):
+# which Verus units a fallback part can stand in for (a fallback part is skipped when none of them is undecided)
+FALLBACK_FOR = {('kani', 'api'): {'xoshiro', 'xorshift'}, ('diff', 'jitter'): {'jitter'}, ('kani', 'hc128_incrate'): {'hc128'},
+                ('kani', 'isaac_incrate'): {'isaac'}, ('kani', 'isaac64_incrate'): {'isaac64'}}
+
+
+def run_part(part, seed=0, tier='quick', threads=16, prop=None, stop_on_failure=False, only=None):
     kind = part[0]
     if kind == 'verus':
         return parts.verus_part(part[1], threads=threads)
     if kind == 'kani':
         from . import kani
-        return kani.kani_part(part[1], tier=tier, prop=prop, stop_on_failure=stop_on_failure)
+        return kani.kani_part(part[1], tier=tier, prop=prop, stop_on_failure=stop_on_failure, only=only)
     if kind == 'sweep':
         from . import cex
         return cex.isaac_serde_sweep_part()
@@ -62,7 +67,7 @@ reg('C12', [('verus', 'jitter')], thorough=[('verus', 'jitter'), ('kani', 'jitte
     assumptions=['number of timer readings: the postconditions quantify exactly the readings that can influence the state; the count itself is decided by Kani harnesses on the real code (thorough tier)'])
 reg('C13', [('verus', 'jitter')], thorough=[('verus', 'jitter'), ('diff', 'jitter')], fallback=[('diff', 'jitter')], level='proof', trusted_base=TB_COMMON + TB_JIT,
     explanation='test_timer carries `exists log. tt_post(log, r)`: Ok(r) only if no failure condition holds on the probe log, 1<=r<=128 and r*bitlen(mean)>=128; Err(e) only if cond(e) holds')
-reg('C14', [('verus', 'xoshiro'), ('verus', 'xorshift'), ('verus', 'jitter'), ('verus', 'hc128'), ('verus', 'isaac'), ('verus', 'isaac64')], fallback=[('diff', 'jitter')], level='proof', trusted_base=TB_COMMON + TB_RC + TB_JIT,
+reg('C14', [('verus', 'xoshiro'), ('verus', 'xorshift'), ('verus', 'jitter'), ('verus', 'hc128'), ('verus', 'isaac'), ('verus', 'isaac64')], fallback=[('diff', 'jitter'), ('kani', 'api')], level='proof', trusted_base=TB_COMMON + TB_RC + TB_JIT,
     explanation='Verus built-in obligations (overflow, index, shift, division, callee preconditions incl. panics) in every function under contract; public functions require only the type invariant',
     assumptions=['Debug/serde formatting are not claimed panic-free'])
 reg('C16', [('verus', 'jitter')], thorough=[('verus', 'jitter'), ('diff', 'jitter')], fallback=[('diff', 'jitter')], level='proof', trusted_base=TB_COMMON + TB_JIT,
@@ -108,7 +113,7 @@ reg('C11', [('kani', 'serde_rt'), ('sweep', 'isaac_serde')], thorough=[('kani', 
     assumptions=['IsaacRng / Isaac64Rng: BOUNDED stand-in (never counted as proved): native sweep over every snapshot point (all buffer indices, pending half or not) for 3 seeds on the real crates; the core with arbitrary contents through derive output + isaac_array_serde is a Kani harness in the thorough tier (token serde format kani/incrate/tokfmt.rs; bincode and the whole-generator harness exceed CBMC: 14 GB / 50 min)'])
 reg('C17', [('static', 'debug_frame'), ('kani', 'debug'), ('kani', 'hc128_incrate'), ('kani', 'isaac_incrate'), ('kani', 'isaac64_incrate'), ('kani', 'jitter_incrate')], level='proof', trusted_base=TB_KANI,
     explanation='{:?} and {:#?} of an arbitrary state written into a fixed sink equal the expected literal byte for byte (formatting loops are bounded by the literal length)')
-reg('C18', ALL_UNITS + [('static', 'cfg_invariance')], level='proof', trusted_base=TB_COMMON + ['optimiser/code generator correctness (T1): no source-level method can do without it'],
+reg('C18', ALL_UNITS + [('static', 'cfg_invariance')], fallback=[('kani', 'api'), ('diff', 'jitter')], level='proof', trusted_base=TB_COMMON + ['optimiser/code generator correctness (T1): no source-level method can do without it'],
     explanation='(1) no overflow/debug check can fire in any function under contract (Verus built-in obligations), so dev and release execute the same arithmetic; (2) every function has identical expanded text under {debug assertions on, off} x {serde off, on}')
 reg('C19', [('static', 'shared_state_scan'), ('static', 'send_sync')], level='other', trusted_base=['rustc auto-trait checking', 'Rust aliasing rules for &mut self'],
     explanation='frame obligations: every function of the expanded crates mentions no static / interior-mutable / ambient state (JITTER_ROUNDS only in JitterRng::new); Send + Sync for all 23 generator/core types discharged by rustc; interleavings are not explored: with exclusive &mut self and an empty global frame there is nothing for a schedule to influence')
